@@ -172,6 +172,28 @@ def sec_programs(ctx, rng, case):
         if before is not None:
             ctx.check(np.array_equal(before, init), "caller-initial-state-untouched", "C01:initial-state-mutated",
                       "the caller's initial_state array was written by simulate", init=label, **wit)
+        # views of that final state: reduced density matrix of a subset of the qubits (in the order asked for), Bloch
+        # vector of one qubit, the state vector again (with / without copy)
+        nq_ = len(full_order)
+        ksub = int(rng.integers(1, min(nq_, 3) + 1))
+        sub = [int(x) for x in rng.choice(nq_, size=ksub, replace=False)]
+        rho_full = np.outer(want, want.conj()).reshape(tuple(rdims) * 2)
+        rest = [a for a in range(nq_) if a not in sub]
+        red = np.einsum(rho_full, list(range(nq_)) + [nq_ + a if a in sub else a for a in range(nq_)], sub + [nq_ + a for a in sub])
+        dsub = int(np.prod([rdims[a] for a in sub]))
+        red = red.reshape(dsub, dsub)
+        got_r = res.density_matrix_of([full_order[a] for a in sub])
+        ctx.check(L.allclose(got_r, red, max(tol, 1e-6) * 4), "final-state-views", "C01:view:density_matrix_of:split=%s" % split,
+                  lambda: "density_matrix_of(%s) deviates from the partial trace of the reference state by %.3g" % (sub, L.maxdiff(got_r, red)),
+                  subset=sub, init=label, dtype=dtype.__name__, **wit)
+        if rdims[sub[0]] == 2:
+            r1 = np.einsum(rho_full, list(range(nq_)) + [nq_ + a if a == sub[0] else a for a in range(nq_)], [sub[0], nq_ + sub[0]])
+            bl = np.array([2 * r1[0, 1].real, -2 * r1[0, 1].imag if False else 2 * r1[1, 0].imag, (r1[0, 0] - r1[1, 1]).real])
+            got_b = res.bloch_vector_of(full_order[sub[0]])
+            ctx.check(L.allclose(got_b, bl, max(tol, 1e-6) * 4), "final-state-views", "C01:view:bloch_vector_of:split=%s" % split,
+                      lambda: "bloch_vector_of deviates by %.3g" % L.maxdiff(got_b, bl), wire=sub[0], init=label, **wit)
+        sv2 = res.state_vector(copy=bool(rng.integers(2)))
+        ctx.check(L.allclose(sv2, want, tol), "final-state-views", "C01:view:state_vector:split=%s" % split, "", init=label, **wit)
 
     # 4. moment stepping: state after every moment
     dtype = [np.complex64, np.complex128][int(rng.integers(2))]
